@@ -55,6 +55,12 @@ def run(repo, rep, tier):
     L.innermost_rule(repo, rep, "R06.2",
                      ("chameleon.zpt.program.MacroProgram",),
                      only=("_interpolation",))
+    # "the value of exactly that expression": the text between the braces is
+    # only stripped and joined over its lines before it is parsed (C20 owns
+    # the rule; white space inside its string literals survives)
+    from . import c20 as _c20
+    L.borrow(repo, rep, "R06.3", "C20", _c20._lone_value,
+             ("python-text-rewrites",))
     L.state_rule(repo, rep)
 
 
